@@ -3,7 +3,9 @@
    the block's own, setting user data touches only that block (C06's live_effect), and the
    AllocationListBegin/FindNextAllocation iteration is the list of live handles, each once. *)
 From Coq Require Import ZArith List.
+From Coq Require Import Lia.
 From Arsenal Require Import Util Bits Gran Tlsf TlsfStep TlsfProps.
+From Arsenal Require Linear LinearInv LinearAlloc LinearFree LinearStep LinearSwap LinearVisit LinearProps.
 Open Scope Z_scope.
 
 Theorem C17_tlsf_lookup_own : forall h gr size ops,
@@ -30,3 +32,34 @@ Theorem C17_tlsf_setud_only : forall h gr size ops o,
   live_effect t o (fst (step t o)) (snd (step t o)).
 Proof. exact tlsf_step_exact. Qed.
 Print Assumptions C17_tlsf_setud_only.
+
+Module LinearHalf.
+Import Linear LinearInv LinearAlloc LinearFree LinearStep LinearSwap LinearVisit LinearProps.
+Import ListNotations.
+
+(* Linear half: the handle (offset+1) of a live item resolves to that item's own user data and
+   offset; OSetUD on a live handle changes exactly that item's tag (LinearStep.live_effect /
+   retag_effect); the linear algorithm has no allocation iteration (AllocationListBegin errors). *)
+Theorem C17_linear_lookup_own : forall h gr size l x,
+  lcfg_ok gr size -> lreach h gr size l -> In x (LinearInv.live l) ->
+  Linear.get_user_data l (s_off x + 1) = UDOk (s_tag x) /\ allocation_offset (s_off x + 1) = s_off x.
+Proof. exact linear_lookup_own. Qed.
+Print Assumptions C17_linear_lookup_own.
+
+Theorem C17_linear_setud_only : forall h gr size l o,
+  lcfg_ok gr size -> lreach h gr size l -> LinearStep.op_ok l o ->
+  LinearStep.live_effect l o (fst (Linear.step l o)) (snd (Linear.step l o)).
+Proof. exact linear_step_exact. Qed.
+Print Assumptions C17_linear_setud_only.
+
+(* non-vacuity (linear): an admissible history through ring buffer, lazy deletion and vector swap *)
+Example C17_linear_nonvacuous :
+  lcfg_ok 1 100 /\ lreach HVam 1 100 (lrun (linear_init HVam 1 100) LinearStep.ex_ops) /\
+  map s_off (LinearInv.live (lrun (linear_init HVam 1 100) LinearStep.ex_ops)) = [0; 24]%Z.
+Proof.
+  split; [split; [lia|exists 0; split; [lia|reflexivity]]|].
+  split; [exists LinearStep.ex_ops; split; [exact (proj1 LinearStep.ex_ops_ok)|reflexivity]|].
+  exact (proj1 (proj2 LinearStep.ex_ops_ok)).
+Qed.
+
+End LinearHalf.
